@@ -207,8 +207,9 @@ namespace avel {
         static_assert(N < mask8x64f::width, "Specified index does not exist");
         typename std::enable_if<N < mask8x64f::width, int>::type dummy_variable = 0;
 
-        auto mask = b << N;
-        return mask8x64f{__mmask8((decay(m) & ~mask) | mask)};
+        auto bit = std::uint64_t(1) << N;
+        auto mask = std::uint64_t(b) << N;
+        return mask8x64f{__mmask8((decay(m) & ~bit) | mask)};
     }
 
 
